@@ -17,9 +17,11 @@ from .. import gen, ref, ux, core, dialects
 
 PROPERTY = "C08"
 SHARDS = {"quick": 8, "thorough": 16}
+TIMEOUT = {"quick": 900, "thorough": 4 * 3600}
 MODES = {
-    "quick": [{"name": "jit", "env": {}}, {"name": "jit-off", "env": {"NUMBA_DISABLE_JIT": "1"}}],
-    "thorough": [{"name": "jit+boundscheck", "env": {"NUMBA_BOUNDSCHECK": "1"}}, {"name": "jit-off", "env": {"NUMBA_DISABLE_JIT": "1"}}],
+    # workqueue threading layer: the reference processes are forked, which GNU OpenMP does not survive
+    "quick": [{"name": "jit", "env": {"NUMBA_THREADING_LAYER": "workqueue"}}, {"name": "jit-off", "env": {"NUMBA_DISABLE_JIT": "1"}}],
+    "thorough": [{"name": "jit+boundscheck", "env": {"NUMBA_BOUNDSCHECK": "1", "NUMBA_THREADING_LAYER": "workqueue"}}, {"name": "jit-off", "env": {"NUMBA_DISABLE_JIT": "1"}}],
 }
 RULE = (
     "cases: sources (explicit topology, MPAS with all optional tables, UGRID dataset, face vertices) x (i) the pairwise walk - for ordered "
@@ -88,6 +90,106 @@ VOLATILE = ("qa_records", "time_whole")  # Exodus bookkeeping: carries the wall-
 
 def dig_ds(ds):
     return {k: dig_da(ds[k]) for k in sorted(ds.variables) if k not in VOLATILE}
+
+
+def simplify(x):
+    """value -> picklable plain structure (nested dict / list / ndarray / scalars) carrying everything a digest covers"""
+    import xarray as xr
+
+    if isinstance(x, xr.DataArray):
+        return {"__da__": True, "name": str(x.name), "dims": list(x.dims), "values": np.array(x.values), "attrs": {k: repr(x.attrs[k]) for k in ("cf_role", "_FillValue", "start_index") if k in x.attrs}}
+    if isinstance(x, xr.Dataset):
+        return {"__ds__": True, "vars": {str(k): simplify(x[k]) for k in sorted(x.variables) if k not in VOLATILE}}
+    if isinstance(x, np.ndarray):
+        return np.array(x)
+    if isinstance(x, (tuple, list)):
+        return [simplify(v) for v in x]
+    if isinstance(x, (np.integer, np.floating, np.bool_)):
+        return x.item()
+    if isinstance(x, (int, float, str, bool)) or x is None:
+        return x
+    if hasattr(x, "node_lon") and hasattr(x, "face_node_connectivity"):
+        return {"__grid__": True, "node_lon": np.array(x.node_lon.values), "node_lat": np.array(x.node_lat.values), "fnc": np.array(x.face_node_connectivity.values)}
+    if hasattr(x, "columns") or hasattr(x, "get_paths") or hasattr(x, "get_segments"):
+        from . import c15
+
+        rows = c15.rows_of(x)
+        cols = sorted(map(str, x.columns)) if hasattr(x, "columns") else []
+        vals = None
+        if hasattr(x, "get_array") and x.get_array() is not None:
+            vals = np.asarray(x.get_array(), dtype=float)
+        return {"__geom__": True, "rows": [[np.asarray(r, dtype=float) for r in row] for row in rows], "cols": cols, "vals": vals}
+    return "<%s>" % type(x).__name__
+
+
+def dig_simple(x):
+    if isinstance(x, dict):
+        if x.get("__da__"):
+            return {"dims": x["dims"], "hash": dig_array(x["values"]), "attrs": x["attrs"]}
+        if x.get("__ds__"):
+            return {k: dig_simple(v) for k, v in x["vars"].items()}
+        if x.get("__grid__"):
+            return {k: dig_array(x[k]) for k in ("node_lon", "node_lat", "fnc")}
+        if x.get("__geom__"):
+            return core.jhash({"rows": [[np.round(r, 4).tolist() for r in row] for row in x["rows"]], "cols": x["cols"], "vals": None if x["vals"] is None else np.round(x["vals"], 6).tolist()})
+        return {k: dig_simple(v) for k, v in x.items()}
+    if isinstance(x, np.ndarray):
+        return dig_array(x)
+    if isinstance(x, list):
+        return [dig_simple(v) for v in x]
+    return repr(x)
+
+
+def fp_simple(x):
+    if isinstance(x, dict) and x.get("__da__"):
+        return fingerprint(x["values"])
+    if isinstance(x, np.ndarray):
+        return fingerprint(x)
+    if isinstance(x, list) and x and (isinstance(x[0], np.ndarray) or (isinstance(x[0], dict) and x[0].get("__da__"))):
+        return fp_simple(x[0])
+    if isinstance(x, (int, float)) and not isinstance(x, bool):
+        return [1, float(x), float(x)]
+    if isinstance(x, dict) and x.get("__grid__"):
+        return fingerprint(x["fnc"])
+    return None
+
+
+def close_simple(a, b, rtol=1e-12, atol=1e-12, name=""):
+    """tolerant comparison of two simplified values, used only when their exact digests differ"""
+    try:
+        if isinstance(a, dict) and isinstance(b, dict):
+            if a.get("__da__") and b.get("__da__"):
+                if a["dims"] != b["dims"] or a["attrs"] != b["attrs"]:
+                    return False
+                return close_simple(a["values"], b["values"], rtol, atol, a["name"])
+            if a.get("__ds__") and b.get("__ds__"):
+                return sorted(a["vars"]) == sorted(b["vars"]) and all(close_simple(a["vars"][k], b["vars"][k], rtol, atol) for k in a["vars"])
+            if a.get("__grid__") and b.get("__grid__"):
+                return (close_simple(a["node_lon"], b["node_lon"], rtol, atol, "node_lon") and close_simple(a["node_lat"], b["node_lat"], rtol, atol) and np.array_equal(a["fnc"], b["fnc"]))
+            if a.get("__geom__") and b.get("__geom__"):
+                if a["cols"] != b["cols"] or len(a["rows"]) != len(b["rows"]):
+                    return False
+                for x, y in zip(a["rows"], b["rows"]):
+                    if len(x) != len(y) or any(np.shape(p) != np.shape(q) or not np.allclose(p, q, rtol=1e-6, atol=1e-6, equal_nan=True) for p, q in zip(x, y)):
+                        return False
+                return (a["vals"] is None) == (b["vals"] is None) and (a["vals"] is None or close_simple(a["vals"], b["vals"], rtol, atol))
+            return False
+        if isinstance(a, np.ndarray) and isinstance(b, np.ndarray):
+            if a.shape != b.shape or a.dtype.kind != b.dtype.kind:
+                return False
+            if a.dtype.kind in "fc":
+                if name.endswith("_lon") or name == "node_lon":
+                    d = np.abs(a.astype(float) - b.astype(float))
+                    return bool(np.all((np.minimum(d, np.abs(360.0 - d)) <= atol + rtol * 360.0) | (np.isnan(a) & np.isnan(b))))
+                return bool(np.allclose(a, b, rtol=rtol, atol=atol, equal_nan=True))
+            return bool(np.array_equal(a, b))
+        if isinstance(a, list) and isinstance(b, list):
+            return len(a) == len(b) and all(close_simple(x, y, rtol, atol) for x, y in zip(a, b))
+        if isinstance(a, float) and isinstance(b, float):
+            return bool(np.isclose(a, b, rtol=rtol, atol=atol, equal_nan=True))
+        return a == b
+    except Exception:
+        return False
 
 
 def dig_any(x):
@@ -199,7 +301,8 @@ def observe(g, entry):
             warnings.simplefilter("ignore")
             with np.errstate(all="ignore"):
                 v = entry["fn"](g)
-        return "ok", dig_any(v), fp_any(v), v
+        sv = simplify(v)
+        return "ok", dig_simple(sv), fp_simple(sv), sv
     except Exception as e:
         return "exc", core.exc_sig(e), None, None
 
@@ -324,16 +427,151 @@ def close_any(a, b, rtol=1e-12, atol=1e-12):
     return False
 
 
-class Ref:
-    """reference table of one source: op -> (status, digest, fingerprint), each on its own brand-new grid"""
+class Zygote:
+    """A process forked from the worker right after warm-up (library imported, kernels compiled, no grid history).  For every
+    request it forks a grandchild that builds the requested source and observes each requested op on its own brand-new grid:
+    the reference table comes from a process whose library state no history of this worker has touched."""
 
-    def __init__(self, factory, C):
-        self.factory, self.C, self.t = factory, C, {}
+    def __init__(self):
+        import os
+        import pickle
+
+        self.os, self.pickle = os, pickle
+        req_r, req_w = os.pipe()
+        ack_r, ack_w = os.pipe()
+        pid = os.fork()
+        if pid == 0:
+            try:
+                os.close(req_w)
+                os.close(ack_r)
+                self._serve(os.fdopen(req_r, "r"), os.fdopen(ack_w, "w"))
+            finally:
+                os._exit(0)
+        os.close(req_r)
+        os.close(ack_w)
+        self.pid = pid
+        self.req = os.fdopen(req_w, "w")
+        self.ack = os.fdopen(ack_r, "r")
+        self.n = 0
+
+    def _serve(self, req, ack):
+        os, pickle = self.os, self.pickle
+        C = catalogue()
+        for line in req:
+            job = json.loads(line)
+            pid = os.fork()
+            if pid == 0:
+                code = 1
+                try:
+                    out = {}
+                    m = gen.build(job["mesh"])
+                    fac = make_factory(job["source"], m, job["sseed"])
+                    for name in job["ops"]:
+                        st, dg, fp, val = observe(fac(), C[name])
+                        out[name] = (st, dg, fp, val)
+                    with open(job["out"], "wb") as f:
+                        pickle.dump(out, f)
+                    code = 0
+                finally:
+                    os._exit(code)
+            # generous watchdog: a hung reference process makes the request fail (the caller falls back), never a verdict
+            import time as _t
+
+            t0, status = _t.time(), None
+            while True:
+                wp, st_ = os.waitpid(pid, os.WNOHANG)
+                if wp:
+                    status = st_
+                    break
+                if _t.time() - t0 > 180:
+                    try:
+                        os.kill(pid, 9)
+                        os.waitpid(pid, 0)
+                    except Exception:
+                        pass
+                    status = 999
+                    break
+                _t.sleep(0.005)
+            ack.write("%d %d\n" % (job["id"], status))
+            ack.flush()
+
+    def table(self, source, mesh_desc, sseed, ops):
+        import os
+
+        self.n += 1
+        from .. import env
+
+        out = os.path.join(env.WORK, "c08ref_%d_%d.pkl" % (os.getpid(), self.n))
+        self.req.write(json.dumps({"id": self.n, "out": out, "source": source, "mesh": mesh_desc, "sseed": sseed, "ops": list(ops)}, default=core._jd) + "\n")
+        self.req.flush()
+        line = self.ack.readline()
+        if not line or int(line.split()[1]) != 0 or not os.path.exists(out):
+            raise RuntimeError("reference process failed: %r" % (line,))
+        with open(out, "rb") as f:
+            t = self.pickle.load(f)
+        os.remove(out)
+        return t
+
+    def close(self):
+        try:
+            self.req.close()
+            self.os.waitpid(self.pid, 0)
+        except Exception:
+            pass
+
+
+_Z = {"z": None}
+
+
+def setup(ctx):
+    """Warm-up (imports, JIT compilation) on a throw-away grid, then fork the reference zygote."""
+    import dask
+
+    dask.config.set(scheduler="synchronous")  # no thread pools in a process that is going to fork
+    C = catalogue()
+    m = gen.build({"family": "polyhedron", "name": "cube", "ops": []})
+    for src in ("topology", "mpas"):
+        fac = make_factory(src, m, 1)
+        g = fac()
+        for name in sorted(C):
+            if ctx.mode == "jit-off" and not C[name]["jit_off"]:
+                continue
+            observe(g if not name.startswith("chunk") else fac(), C[name])
+    _Z["z"] = Zygote()
+
+
+def finish(ctx):
+    if _Z["z"] is not None:
+        _Z["z"].close()
+
+
+class Ref:
+    """reference table of one source: op -> (status, digest, fingerprint, simplified value), each observed on its own brand-new
+    grid inside a process forked from the pristine zygote"""
+
+    def __init__(self, source, mesh_desc, sseed, C, ops, ctx=None):
+        self.C = C
+        self.ctx = ctx
+        self.args = (source, mesh_desc, sseed)
+        self.t = {}
+        self._fetch(sorted(set(ops)))
+
+    def _fetch(self, ops):
+        try:
+            self.t.update(_Z["z"].table(self.args[0], self.args[1], self.args[2], ops))
+            if self.ctx is not None:
+                self.ctx.observe("reference_tables_from_forked_pristine_process")
+        except Exception as e:
+            # fall back to brand-new grids in this process (weaker: shares the library's module state with the history)
+            if self.ctx is not None:
+                self.ctx.observe("reference_fallback_in_process")
+            fac = make_factory(self.args[0], gen.build(self.args[1]), self.args[2])
+            for name in ops:
+                self.t[name] = observe(fac(), self.C[name])
 
     def get(self, name):
         if name not in self.t:
-            st, dg, fp, val = observe(self.factory(), self.C[name])
-            self.t[name] = (st, dg, fp, val)
+            self._fetch([name])
         return self.t[name]
 
 
@@ -343,7 +581,7 @@ def compare(ctx, name, entry, got, R, sig, det):
     if entry["exports"] and st == "ok" and rst == "ok":
         # superset of the fresh export; extra variables hold the value of the property of the same name
         miss = [k for k in rdg if k not in dg]
-        diff = [k for k in rdg if k in dg and dg[k] != rdg[k] and not close_any(val[k], rval[k])]
+        diff = [k for k in rdg if k in dg and dg[k] != rdg[k] and not close_simple(val["vars"][k], rval["vars"][k])]
         bad_extra = []
         for k in dg:
             if k in rdg:
@@ -357,7 +595,7 @@ def compare(ctx, name, entry, got, R, sig, det):
         ctx.check("pure_function_of_source", ok, dict(sig, why="export"), dict(det, missing=miss[:5], differing=diff[:5], extra_with_other_value=bad_extra[:5]))
         return
     ok = (st == rst) and (dg == rdg)
-    if not ok and st == rst == "ok" and close_any(val, rval):
+    if not ok and st == rst == "ok" and close_simple(val, rval):
         ok = True
         ctx.observe("equal_up_to_rounding_only")
     why = "" if ok else ("status %s vs fresh %s" % (st, rst) if st != rst else "value differs")
@@ -383,10 +621,11 @@ def run_case(ctx, case):
         if jit_off and (mA.n_face > 40 or mB.n_face > 40):
             return
         fA, fB = make_factory(case["source"], mA, case["sseed"]), make_factory(case["source_b"], mB, case["sseed"] + 1)
-        RA = Ref(fA, C)
         pairs = case["pairs"]
         if jit_off:
             pairs = pairs[:6]
+        RA = Ref(case["source"], case["mesh"], case["sseed"], C, [p[1] for p in pairs] + ["attr:" + a for a in ATTRS if a != "bounds"], ctx)
+        RB = Ref(case["source_b"], case["mesh_b"], case["sseed"] + 1, C, [p[0] for p in pairs if p[2]], ctx)
         fps = {}
         for first, second, cross in pairs:
             if jit_off and not (C[first]["jit_off"] and C[second]["jit_off"]):
@@ -397,8 +636,10 @@ def run_case(ctx, case):
             tgt = fB() if cross else a
             sig = {"first": first.split(":")[0] + ":" + ":".join(first.split(":")[1:3]), "second": second.split(":")[0] + ":" + ":".join(second.split(":")[1:3]), "cross_grid": bool(cross)}
             det = {"first": first, "second": second, "cross_grid": bool(cross), "source": case["source"], "source_b": case["source_b"], "mesh": case["mesh"], "mesh_b": case["mesh_b"] if cross else None}
-            observe(tgt, C[first])
+            got1 = observe(tgt, C[first])
             sentinel(dict(sig, after=sig["first"]), det)
+            if cross:  # the first op is an observation of B as well
+                compare(ctx, first, C[first], got1, RB, dict(sig, observed="first_on_B"), det)
             got = observe(a, C[second])
             sentinel(dict(sig, after=sig["second"]), det)
             compare(ctx, second, C[second], got, RA, sig, det)
@@ -416,7 +657,7 @@ def run_case(ctx, case):
         return
     facs = [make_factory(s, m, case["sseed"] + i) for i, (s, m) in enumerate(zip(case["sources"], meshes))]
     grids = [f() for f in facs]
-    refs = [Ref(f, C) for f in facs]
+    refs = [Ref(case["sources"][i], case["meshes"][i], case["sseed"] + i, C, [nm for gi, nm in case["history"] if gi == i], ctx) for i in range(len(facs))]
     done = []
     for gi, name in case["history"]:
         if C[name]["heavy"] and meshes[gi].n_face > 25:
